@@ -5,6 +5,7 @@ mod c09;
 mod c10;
 mod c11;
 mod c12;
+mod c13;
 mod codes;
 mod common;
 mod explore;
@@ -59,6 +60,7 @@ fn main() {
                 "C10" => c10::run(&ctx),
                 "C11" => c11::run(&ctx),
                 "C12" => c12::run(&ctx),
+                "C13" => c13::run(&ctx),
                 _ => {
                     eprintln!("unknown property {}", args[2]);
                     std::process::exit(2);
@@ -76,6 +78,8 @@ fn main() {
             println!("replaying {} (property {}, rule {})", h, v["property"], v["rule"]);
             let violated = if h.starts_with("c11.") {
                 c11::replay(&v)
+            } else if h.starts_with("c13.") {
+                c13::replay(&v)
             } else if h.starts_with("c08.") {
                 c08::replay(&v)
             } else if h == "c09.pair" {
